@@ -220,6 +220,8 @@ GrpcInit(lvl) ==
         \E sc \in GScripts(StepsOf(shs), lvl) :
           st = InitSt(GrpcCase(f, nsi, shs, sc))
 
+GrpcSmallInit == \E f \in {1, 3}, nsi \in {2, 5} : \E sc \in GScripts(Len(NameSeqs[nsi]), 1) :
+                    st = InitSt(GrpcCase(f, nsi, OneShape(Len(NameSeqs[nsi])), sc))
 InitQuick == FlowInit(0) \/ RingInit \/ IterInit \/ NextBigInit \/ FirstInit \/ TmplInit \/ GrpcInit(0)
 InitThorough == FlowInit(1) \/ RingInit \/ IterInit \/ NextBigInit \/ FirstInit \/ TmplInit \/ GrpcInit(1)
 InitFull  == FlowInit(2) \/ RingInit \/ IterInit
@@ -228,7 +230,10 @@ InitSmall == (\E nsi \in {2, 6} : \E shs \in [1..Len(NameSeqs[nsi]) -> {Shape(1,
              \/ (\E ws \in [1..2 -> {1, 2, 4}] : st = InitSt(RingCase(ws)))
 
 \* M2: export the selected cases for the replay through the real code
-Selected(c) == c.fam # "flow" \/ (c.id % Mod) = (Sd % Mod)
+GMod == IF "VERIF_GMOD" \in DOMAIN IOEnv THEN atoi(IOEnv.VERIF_GMOD) ELSE 1
+Selected(c) == CASE c.fam = "flow" -> (c.id % Mod) = (Sd % Mod)
+                 [] c.fam = "grpc" -> (c.id % GMod) = (Sd % GMod)
+                 [] OTHER -> TRUE
 Export == (Done(st) /\ Selected(st.cs)) => PrintT(<<"VERIF", ToJson(st.cs)>>)
 
 =============================================================================
